@@ -29,3 +29,30 @@ Print Assumptions C16_gen_comb_jit_exact.
 Theorem C16_tie_next_k_array : forall a, gen_next_k_array a = next_k_array a.
 Proof. exact gen_next_k_array_eq. Qed.
 Print Assumptions C16_tie_next_k_array.
+
+(* ---------------------------------------------------------------------------------------------
+   simplex_grid and num_compositions_jit (_gridtools.py) as REGENERATED from the current source (Gen/Kernels4.v):
+   the generated kernel returns exactly the grid of the hand-written model C16/Model.v, or the ValueError that the
+   model reports as None (proof in C16/TieGen4.v).  Hence simplex_grid_spec / simplex_grid_complete of C16/Props.v
+   speak about the current text.  The value tie holds for all m >= 0 and n; it is stated for the returned array
+   (the bounds flag of the generated kernel is not characterised here).
+   --------------------------------------------------------------------------------------------- *)
+From Coq Require Import String.
+From QE Require Import Gen.Kernels4 C16.TieGen4.
+Theorem C16_tie_num_compositions_jit : forall m n, gen_num_compositions_jit m n = (num_compositions_jit m n, true).
+Proof. exact gen_num_compositions_jit_tie. Qed.
+Print Assumptions C16_tie_num_compositions_jit.
+
+Theorem C16_tie_simplex_grid : forall (mN : nat) (n : Z), 0 <= num_compositions_jit (Z.of_nat mN) n ->
+  fst (gen_simplex_grid (Z.of_nat mN) n) =
+    match simplex_grid (Z.of_nat mN) n with
+    | None => inl "ValueError: Maximum allowed size exceeded"%string
+    | Some rows => inr rows
+    end.
+Proof. exact gen_simplex_grid_tie. Qed.
+Print Assumptions C16_tie_simplex_grid.
+
+Example C16_tie_simplex_grid_example :
+  gen_simplex_grid 3 2 = (inr [[0;0;2];[0;1;1];[0;2;0];[1;0;1];[1;1;0];[2;0;0]], true) /\
+  simplex_grid 3 2 = Some [[0;0;2];[0;1;1];[0;2;0];[1;0;1];[1;1;0];[2;0;0]].
+Proof. vm_compute. split; reflexivity. Qed.
